@@ -151,3 +151,22 @@ Fixpoint post_vis (D : nfilter) (s : itree) : list nid :=
   match s with INode i _ kids => flat_map (fun k => if D (iid k) then post_vis D k else []) kids ++ [i] end.
 Definition a_post_vis (t : itree) (D : nfilter) (n : nid) : list nid :=
   match a_sub t n with Some s => post_vis D s | None => [] end.
+
+(* ---- level order of the forest below a list of nodes, for an arbitrary children function `g`
+        (g = children: the whole subtree; g = visible children: what traverse_bf_ltr_ttb walks under an ambient filter) ---- *)
+Fixpoint lvg (g : nid -> list nid) (d : nat) (l : list nid) : list nid :=
+  match d with O => [] | S d' => l ++ lvg g d' (flat_map g l) end.
+Definition vis_children (t : itree) (D : nfilter) (x : nid) : list nid := filter D (a_children t x).
+
+(* ---- index paths under an ambient filter: positions among the visible siblings ---- *)
+Definition rpath_kidsD (D : nfilter) (rec : itree -> option (list nat)) :=
+  fix go (i : nat) (l : list itree) : option (list nat) :=
+    match l with
+    | [] => None
+    | k :: r => match rec k with Some p => Some (i :: p) | None => go (if D (iid k) then S i else i) r end
+    end.
+Fixpoint rpathD (D : nfilter) (n : nid) (t : itree) : option (list nat) :=
+  match t with
+  | INode i _ kids => if N.eqb i n then Some [] else rpath_kidsD D (rpathD D n) 0 kids
+  end.
+Definition vcount (D : nfilter) (l : list itree) : nat := length (filter (fun k => D (iid k)) l).
